@@ -2,8 +2,11 @@ package main
 
 import (
 	"fmt"
+	"math/rand"
 	"strings"
 	"time"
+
+	"evylang.dev/evy/pkg/evaluator"
 )
 
 // C14 — interruptibility: for every generated program and EVERY yield index k
@@ -22,6 +25,15 @@ var c14Templates = []string{
 	"x := read\nprint x\ncls\nsleep 0.001\nmove 1 2\nline 3 4\nprint \"z\"\n",
 }
 
+// c14Runaway reports a run that the harness had to abort by force: the yield budget raised the stop flag and the
+// evaluator went on evaluating (budgetYielder's runawayGrace).
+func c14Runaway(r *Result, run SemRun, in map[string]any) {
+	if strings.HasPrefix(run.GoPanic, "harness: run not interruptible") {
+		r.Violate(Violation{Kind: "property", Key: "not-interruptible",
+			Detail: fmt.Sprintf("the stop flag raised at the yield budget was ignored (phase %d of the history): %s", len(run.Phases)-1, run.GoPanic), Input: in})
+	}
+}
+
 func c14IsSummary(s string) bool {
 	return strings.HasPrefix(s, "print:✅") || strings.HasPrefix(s, "print:❌")
 }
@@ -38,6 +50,7 @@ func c14Program(model *Model, r *Result, src string, maxK int, cfg Config) {
 	Y := base.Phases[0].Yields
 	if base.Phases[0].Class == "gopanic" {
 		r.Dist("gopanic-base")
+		c14Runaway(r, base, map[string]any{"program": src, "stop_at": -1, "input": []string{"in1", "in2"}})
 		return
 	}
 	r.Dist("base:" + strings.SplitN(base.Phases[0].Class, ":", 2)[0])
@@ -89,8 +102,9 @@ func c14Program(model *Model, r *Result, src string, maxK int, cfg Config) {
 	// effects after the raise: the trace at the moment of the raise must be final (checked through a hook)
 }
 
-// c14EffectsAfterStop re-runs src with a hook that remembers the trace length when the flag is raised.
-func c14EffectsAfterStop(r *Result, src string, k int) {
+// c14EffectsAfterStop re-runs src (and then delivers evs through HandleEvent) with a hook that remembers the trace
+// length when the flag is raised.
+func c14EffectsAfterStop(r *Result, src string, k int, evs ...SemEvent) {
 	var atRaise = -1
 	y := &budgetYielder{budget: 4000}
 	plat := &recPlatform{yielder: y, Input: []string{"in1", "in2"}}
@@ -109,6 +123,11 @@ func c14EffectsAfterStop(r *Result, src string, k int) {
 	func() {
 		defer func() { recover() }()
 		ev.Eval(prog)
+		for _, e := range evs {
+			if _, has := prog.EventHandlers[e.Name]; has {
+				ev.HandleEvent(evaluator.Event{Name: e.Name, Params: e.Params})
+			}
+		}
 	}()
 	if atRaise < 0 {
 		return
@@ -119,10 +138,235 @@ func c14EffectsAfterStop(r *Result, src string, k int) {
 	}
 	r.Evaluations++
 	if len(rest) > 0 {
+		if len(rest) > 5 {
+			rest = append(rest[:5:5], fmt.Sprintf("… (%d more)", len(rest)-5))
+		}
 		r.Violate(Violation{Kind: "property", Key: "effect-after-stop",
 			Detail: fmt.Sprintf("after the stop flag was raised during yield %d the program still performed %v", k, rest),
-			Input:  map[string]any{"program": src, "stop_at": k}})
+			Input:  map[string]any{"program": src, "stop_at": k, "events": evs}})
 	}
+}
+
+// ---------- stop requests that arrive while an event handler runs ----------
+
+// c14EventTemplates: handlers with loops (bounded, endless, nested, through a called function) and effects of every
+// kind, each with an event history. The main program finishes normally; every stop lands inside a handler.
+var c14EventTemplates = []struct {
+	src string
+	evs []SemEvent
+}{
+	{"n := 0\non key k:string\n    for i := range 3\n        n = n + 1\n        print \"key\" k i n\n    end\nend\nprint \"main\" n\n",
+		[]SemEvent{{"key", []any{"a"}}, {"key", []any{"ä"}}}},
+	{"on animate t:num\n    while true\n        print \"tick\" t\n    end\nend\nprint \"main\"\n",
+		[]SemEvent{{"animate", []any{16.0}}, {"animate", []any{32.0}}}},
+	{"c := 0\non animate\n    while true\n        c = c + 1\n    end\nend\n",
+		[]SemEvent{{"animate", []any{1.0}}}},
+	{"func spin n:num\n    while n > 0\n        n = n - 1\n    end\nend\non down x:num y:num\n    spin 4\n    move x y\n    spin 2\n    line y x\n    print \"down\"\nend\non up\n    print \"up\"\n    cls\nend\nspin 2\n",
+		[]SemEvent{{"down", []any{3.0, 4.5}}, {"up", []any{3.0, 4.5}}, {"down", []any{0.0, 1.0}}}},
+	{"m := {a:1 b:2}\ntotal := 0\non input id:string val:string\n    for k := range m\n        for c := range val\n            total = total + m[k]\n            print id k c total\n        end\n    end\n    x := read\n    print x\n    sleep 0.001\nend\nprint total\n",
+		[]SemEvent{{"input", []any{"s1", "xy"}}, {"input", []any{"s2", "日本"}}}},
+	{"func rec n:num\n    if n > 0\n        print n\n        rec n-1\n    end\nend\non key k:string\n    rec 4\n    test 1 1\n    test k \"a\"\n    print \"after\"\nend\non move x:num _:num\n    while x < 3\n        x = x + 1\n        circle x\n    end\nend\n",
+		[]SemEvent{{"key", []any{"a"}}, {"move", []any{0.0, 0.0}}, {"key", []any{"b"}}, {"move", []any{1.0, 0.0}}}},
+}
+
+func c14Events(in map[string]any) []SemEvent {
+	var evs []SemEvent
+	l, _ := in["events"].([]any)
+	for _, x := range l {
+		m, ok := x.(map[string]any)
+		if !ok {
+			continue
+		}
+		name, _ := m["Name"].(string)
+		ps, _ := m["Params"].([]any)
+		evs = append(evs, SemEvent{Name: name, Params: ps})
+	}
+	return evs
+}
+
+// c14EventProgram: the main program runs to its end, then the events are delivered; the stop flag is raised during
+// yield k for every k (up to a cap) that lies INSIDE an event handler. Implementation vs model on the whole history,
+// and the property oracle per phase: the handler in which the stop lands returns ErrStopped after exactly that yield,
+// its effects are a prefix of the uninterrupted handler's, the phases before it are untouched and nothing at all is
+// evaluated for later events.
+func c14EventProgram(model *Model, r *Result, src string, evs []SemEvent, maxK int, cfg Config) {
+	input := []string{"in1", "in2"}
+	base := ImplRun(src, SemOpts{StopAt: -1, Events: evs, YieldBudget: 4000, Input: input})
+	if base.ParseErr != "" {
+		r.Dist("events:parse-error")
+		return
+	}
+	if len(base.Phases) < 2 || base.Phases[0].Class != "ok" {
+		r.Dist("events:no-handler-run")
+		return
+	}
+	// the phases up to the first one cut off by the budget (an endless handler)
+	ph := base.Phases
+	for i, p := range ph {
+		if p.Class == "gopanic" {
+			r.Dist("events:gopanic-base")
+			c14Runaway(r, base, map[string]any{"program": src, "stop_at": -1, "events": evs, "input": input})
+			return
+		}
+		if p.Class == "budget" {
+			ph = ph[:i+1]
+			break
+		}
+	}
+	Y0, Y := ph[0].Yields, ph[len(ph)-1].Yields
+	if Y <= Y0 {
+		return
+	}
+	r.Dist("events:base:" + strings.SplitN(ph[len(ph)-1].Class, ":", 2)[0])
+	ks := []int{}
+	if Y-Y0 <= maxK {
+		for k := Y0; k < Y; k++ {
+			ks = append(ks, k)
+		}
+	} else {
+		seen := map[int]bool{}
+		add := func(k int) {
+			if k >= Y0 && k < Y && !seen[k] {
+				seen[k] = true
+				ks = append(ks, k)
+			}
+		}
+		for i := 1; i < len(ph); i++ { // first two and last two yields of every handler run
+			add(ph[i-1].Yields)
+			add(ph[i-1].Yields + 1)
+			add(ph[i].Yields - 2)
+			add(ph[i].Yields - 1)
+		}
+		for len(ks) < maxK {
+			add(Y0 + cfg.Rng.Intn(Y-Y0))
+		}
+	}
+	for _, k := range ks {
+		o := SemOpts{StopAt: k, Events: evs, YieldBudget: 8000, Input: input}
+		d := semCase(model, r, src, o, true, "events:")
+		got := d.Impl.Phases
+		in := map[string]any{"program": src, "stop_at": k, "events": evs, "input": input}
+		p := 1
+		for p < len(ph) && ph[p].Yields <= k {
+			p++
+		}
+		if len(got) <= p || p >= len(ph) {
+			continue
+		}
+		r.Dist("events:stop-in-handler")
+		bad := false
+		for i := 0; i < p; i++ {
+			if got[i].Class != ph[i].Class || joinLines(got[i].Trace) != joinLines(ph[i].Trace) {
+				r.Violate(Violation{Kind: "property", Key: "handler-stop:earlier-phase-changed",
+					Detail: fmt.Sprintf("stop raised during yield %d (inside the handler of delivered event %d) but phase %d already differs from the uninterrupted run", k, p, i), Input: in, Impl: got})
+				bad = true
+				break
+			}
+		}
+		if bad {
+			continue
+		}
+		hp := got[p]
+		if hp.Class != "stopped" {
+			r.Violate(Violation{Kind: "property", Key: "handler-stop-not-reported:" + strings.SplitN(hp.Class, ":", 2)[0],
+				Detail: fmt.Sprintf("stop flag raised during yield %d, inside the handler of delivered event %d (yields %d..%d), but HandleEvent returned %q instead of ErrStopped", k, p, ph[p-1].Yields, ph[p].Yields-1, hp.Class),
+				Input:  in, Impl: got})
+			continue
+		}
+		if hp.Yields != k+1 {
+			r.Violate(Violation{Kind: "property", Key: "handler-evaluation-continued-after-stop",
+				Detail: fmt.Sprintf("stop raised during yield %d inside an event handler but the handler went on to %d yields", k, hp.Yields), Input: in, Impl: got})
+			continue
+		}
+		full := ph[p].Trace
+		if len(hp.Trace) > len(full) || joinLines(hp.Trace) != joinLines(full[:len(hp.Trace)]) {
+			r.Violate(Violation{Kind: "property", Key: "handler-stopped-trace-not-prefix",
+				Detail: "effects of the stopped handler are not a prefix of the uninterrupted handler's", Input: in, Impl: map[string]any{"stopped": hp.Trace, "full": full}})
+			continue
+		}
+		for i := p + 1; i < len(got); i++ {
+			if got[i].Class != "stopped" || len(got[i].Trace) > 0 || got[i].Yields != k+1 {
+				r.Violate(Violation{Kind: "property", Key: "event-handled-after-stop",
+					Detail: fmt.Sprintf("after the stop (yield %d, delivered event %d) a later event was still evaluated: phase %d ended %q with %d effects, %d yields", k, p, i, got[i].Class, len(got[i].Trace), got[i].Yields),
+					Input:  in, Impl: got})
+				break
+			}
+		}
+	}
+}
+
+// c14EventHistory draws a history for the handlers hs of a generated program: mostly events that have a handler.
+func c14EventHistory(cfg Config, hs []string) []SemEvent {
+	var evs []SemEvent
+	names := []string{"key", "down", "up", "move", "animate", "input"}
+	for j, ne := 0, 1+cfg.Rng.Intn(5); j < ne; j++ {
+		name := names[cfg.Rng.Intn(len(names))]
+		if len(hs) > 0 && cfg.Rng.Intn(4) > 0 {
+			name = hs[cfg.Rng.Intn(len(hs))]
+		}
+		evs = append(evs, SemEvent{Name: name, Params: eventPayloads[name](cfg.Rng)})
+	}
+	return evs
+}
+
+// c14LoopHandlers: a generated main program plus handlers whose bodies are loops (bounded / endless / nested / in a
+// called function) around effects and updates of globals.
+func c14LoopHandlers(cfg Config) (string, []string) {
+	rng := cfg.Rng
+	var b strings.Builder
+	b.WriteString("cnt := 0\nacc := \"\"\nfunc work n:num\n    for i := range n\n        cnt = cnt + i\n    end\nend\n")
+	fmt.Fprintf(&b, "work %d\nprint \"main\" cnt acc\n", rng.Intn(4))
+	sigs := map[string]string{"key": " k:string", "down": " x:num y:num", "up": " x:num _:num", "move": " _:num y:num", "animate": " t:num", "input": " id:string val:string"}
+	uses := map[string]string{"key": "k", "down": "x y", "up": "x", "move": "y", "animate": "t", "input": "id val"}
+	vars := map[string][2]string{"key": {"(len k)", "k"}, "down": {"x", "\"d\""}, "up": {"x", "\"u\""}, "move": {"y", "\"m\""}, "animate": {"t", "\"t\""}, "input": {"(len val)", "id"}}
+	names := []string{"key", "down", "up", "move", "animate", "input"}
+	var hs []string
+	for _, i := range rng.Perm(len(names))[:1+rng.Intn(3)] {
+		name := names[i]
+		hs = append(hs, name)
+		sig := sigs[name]
+		num, str := vars[name][0], vars[name][1]
+		use := uses[name]
+		if rng.Intn(4) == 0 {
+			sig, num, str, use = "", "cnt", "acc", ""
+		}
+		b.WriteString("on " + name + sig + "\n    print \"on\" " + use + "\n")
+		effects := []string{"print \"" + name + "\" cnt " + str, "move cnt 1", "cnt = cnt + 1", "acc = acc + \"" + name[:1] + "\"", "work 2", "sleep 0.001", "circle 1", "cls"}
+		eff := func(ind string) {
+			for j, n := 0, 1+rng.Intn(2); j < n; j++ {
+				b.WriteString(ind + effects[rng.Intn(len(effects))] + "\n")
+			}
+		}
+		for j, n := 0, 1+rng.Intn(2); j < n; j++ {
+			switch rng.Intn(6) {
+			case 0: // endless
+				b.WriteString("    while true\n")
+				eff("        ")
+				b.WriteString("    end\n")
+			case 1:
+				fmt.Fprintf(&b, "    for i := range %d\n", 1+rng.Intn(4))
+				eff("        ")
+				b.WriteString("        print i\n    end\n")
+			case 2:
+				fmt.Fprintf(&b, "    lim%d := %s + %d\n    while lim%d > 0\n        lim%d = lim%d - %d\n", j, num, rng.Intn(3), j, j, j, 1+rng.Intn(40))
+				eff("        ")
+				b.WriteString("    end\n")
+			case 3:
+				fmt.Fprintf(&b, "    for c := range (%s + \"é%d\")\n        for range %d\n", str, rng.Intn(10), 1+rng.Intn(2))
+				eff("            ")
+				b.WriteString("        end\n        print c\n    end\n")
+			case 4:
+				fmt.Fprintf(&b, "    work %d\n", 1+rng.Intn(5))
+				eff("    ")
+			default:
+				eff("    ")
+				fmt.Fprintf(&b, "    if cnt > %d\n        return\n    end\n", rng.Intn(6))
+				eff("    ")
+			}
+		}
+		b.WriteString("end\n")
+	}
+	return b.String(), hs
 }
 
 func runC14(cfg Config, r *Result) {
@@ -131,11 +375,16 @@ func runC14(cfg Config, r *Result) {
 		return
 	}
 	defer model.Close()
-	r.Rule = "for each program (fixed templates incl. endless loops and recursion, then random typed programs with functions/loops/tests/effects) the run is stopped at EVERY yield index k (all k when the run has <= cap yields, else the first cap/2 and random others): implementation vs model (outcome, trace, yield count, globals) and the property oracle on the implementation (ErrStopped, no yield after the raise, no effect after the raise, trace prefix of the uninterrupted run); distinct = distinct (program,k); every case is non-trivial (a stop is injected)"
+	r.Rule = "for each program (fixed templates incl. endless loops and recursion, then random typed programs with functions/loops/tests/effects) the run is stopped at EVERY yield index k (all k when the run has <= cap yields, else the first cap/2 and random others): implementation vs model (outcome, trace, yield count, globals) and the property oracle on the implementation (ErrStopped, no yield after the raise, no effect after the raise, trace prefix of the uninterrupted run); distinct = distinct (program,k); every case is non-trivial (a stop is injected). Event histories (stream events:): fixed templates and generated programs whose handlers contain bounded, endless and nested loops, calls and effects; the main program runs to its end, the events are delivered through HandleEvent and the stop is raised at every yield k INSIDE a handler run (all k up to a cap, else the first and last two yields of every handler run and random others): implementation vs model over the whole history, and the oracle per phase (earlier phases untouched, the interrupted handler returns ErrStopped after exactly yield k with a prefix of its effects, no effect after the raise, later events evaluate nothing)"
 	if in, ok := replayInput(cfg); ok {
 		k := int(in["stop_at"].(float64))
-		semCase(model, r, in["program"].(string), SemOpts{StopAt: k, YieldBudget: 8000, Input: []string{"in1", "in2"}}, true, "")
-		c14EffectsAfterStop(r, in["program"].(string), k)
+		evs := c14Events(in)
+		semCase(model, r, in["program"].(string), SemOpts{StopAt: k, Events: evs, YieldBudget: 8000, Input: []string{"in1", "in2"}}, true, "")
+		c14EffectsAfterStop(r, in["program"].(string), k, evs...)
+		if len(evs) > 0 {
+			cfg.Rng = rand.New(rand.NewSource(1))
+			c14EventProgram(model, r, in["program"].(string), evs, 1<<30, cfg)
+		}
 		return
 	}
 	maxK := cfg.N(40, 200)
@@ -154,6 +403,34 @@ func runC14(cfg Config, r *Result) {
 		}
 		if i < 3 {
 			r.Sample(map[string]any{"program": src})
+		}
+	}
+	// stop requests while an event handler runs
+	maxKE := cfg.N(24, 120)
+	for _, t := range c14EventTemplates {
+		c14EventProgram(model, r, t.src, t.evs, maxKE, cfg)
+		for k := 0; k < 60; k++ {
+			c14EffectsAfterStop(r, t.src, k, t.evs...)
+		}
+	}
+	for i, n := 0, cfg.N(70, 1500); i < n; i++ {
+		var src string
+		var hs []string
+		if i%2 == 0 {
+			src, hs = c14LoopHandlers(cfg)
+		} else {
+			src, hs, _ = GenProgram(cfg.Rng, GenOpts{MaxStmts: 4, MaxDepth: 1, Funcs: true, Handlers: true, Tests: true, Gfx: true, Reads: true, MapLitPure: false})
+			if len(hs) == 0 {
+				continue
+			}
+		}
+		evs := c14EventHistory(cfg, hs)
+		c14EventProgram(model, r, src, evs, maxKE, cfg)
+		for j := 0; j < 6; j++ {
+			c14EffectsAfterStop(r, src, cfg.Rng.Intn(120), evs...)
+		}
+		if i < 2 {
+			r.Sample(map[string]any{"program": src, "events": evs})
 		}
 	}
 	// liveness: an endless program keeps yielding (it reaches the yield budget instead of hanging)
